@@ -39,6 +39,9 @@ def c17(res, tier, seed, replay):
     expect_design_violation(res, "RpcMux", "RpcMux.fail.cfg", "Isolation",
                             "the codec as it was pinned: the body of an error answer makes the reader fail, the connection is closed "
                             "and every call in flight fails (fixed: 6883c97)")
+    expect_design_violation(res, "RpcMux", "RpcMux.closeontimeout.cfg", "Isolation",
+                            "the cached client of a server is closed when one call to it times out (design level only: no driver "
+                            "makes a remote handler slow for seconds)")
     expect_design_violation(res, "RpcMux", "RpcMux.leave.cfg", "NoPhantom",
                             "the body of an error answer is left in the stream and taken for the next header (sequence number 0)")
     runs = []
